@@ -436,7 +436,7 @@ func roleQuery(args []string) int {
 
 var (
 	consumerRe = regexp.MustCompile(`grabAndProcessWorkload`)
-	minutesRe  = regexp.MustCompile(`^goroutine \d+ \[([^\],]+), (\d+) minutes`)
+	minutesRe  = regexp.MustCompile(`^goroutine \d+[^\[]*\[([^\],]+), (\d+) minutes`) // the SIGQUIT dump adds "gp=… m=…" before the state
 )
 
 // blockedForMinutes is the deadlock witness of the keepalive cases: in the runtime's goroutine dump
